@@ -1,10 +1,13 @@
 """Abstract inputs of Master.tla -> harness (mst mode) scenarios."""
+import json
 
 CONFIGS = {
     "quiet1": {"tla": "Cfg_quiet1", "assocs": [{"addr": 1024, "kind": "quiet"}]},
     "full1": {"tla": "Cfg_full1", "assocs": [{"addr": 1024, "kind": "full"}]},
     "quiet2": {"tla": "Cfg_quiet2", "assocs": [{"addr": 1024, "kind": "quiet"}, {"addr": 1025, "kind": "quiet"}]},
     "ka2": {"tla": "Cfg_ka2", "assocs": [{"addr": 1024, "kind": "ka"}, {"addr": 1025, "kind": "quiet"}]},
+    "quiet3": {"tla": "Cfg_quiet3", "assocs": [{"addr": 1024, "kind": "quiet"}, {"addr": 1025, "kind": "quiet"},
+                                               {"addr": 1026, "kind": "quiet"}]},
 }
 
 
@@ -25,6 +28,16 @@ def harness_cfg(name):
     return {"maddr": 1, "assocs": [assoc_cfg(a) for a in CONFIGS[name]["assocs"]], "enabled": True}
 
 
+# one-header CROB command with a one-byte index: objects = 0c 01 17 01 <ix> <code> <count> <on x4> <off x4> <status>
+BAD_ECHOES = [
+    {"status": 4},                                              # status NOT_SUPPORTED
+    {"append": "0c011701090101640000006400000000"},            # an extra, unrequested header
+    {"xor_at": 4, "xor": 1},                                    # another index
+    {"xor_at": 7, "xor": 1},                                    # another on-time
+    {"xor_at": 5, "xor": 2},                                    # another control code
+    {"status": 1},                                              # status TIMEOUT
+]
+
 IIN_KEYS = {"c1": "c1", "c2": "c2", "c3": "c3", "time": "time", "rst": "rst", "ovf": "ovf", "err": "param"}
 
 
@@ -34,6 +47,8 @@ def steps_of(hist, name):
     def addr(i):
         return addrs[i - 1] if 1 <= i <= len(addrs) else 999
     out = []
+    nbad = [0]
+    salt = sum(len(json.dumps(h)) for h in hist)
     for h in hist:
         k = h["k"]
         if k in ("conn", "cut", "enable", "disable"):
@@ -83,8 +98,11 @@ def steps_of(hist, name):
             elif b == "echo":
                 st["echo"] = True
             elif b == "badecho":
+                # a reply that differs from the faithful echo in one respect: status, an extra header, a field of the
+                # object, the index, a missing trailing byte is "bad" (unparsable), not this class
                 st["echo"] = True
-                st["mutate"] = {"status": 4}
+                nbad[0] += 1
+                st["mutate"] = BAD_ECHOES[(nbad[0] + salt) % len(BAD_ECHOES)]
             elif b == "g52":
                 st["hdrs"] = [{"g": 52, "v": 2, "q": 7, "count": 1, "data": "0a00"}]
             elif b == "bad":
